@@ -169,7 +169,9 @@ inline void on_error(const char* msg) {
   if (g_jmp) longjmp(*g_jmp, 1);
   violation("unexpected-error", "mju_error outside a guarded call: %s", msg);
 }
-inline void on_warning(const char* msg) { snprintf(g_lastwarn, sizeof g_lastwarn, "%s", msg); g_nwarn++; }
+inline uint64_t g_nunstable = 0;   // "Nan, Inf or huge value in QPOS/QVEL/QACC" warnings: with autoreset on, each one is a reset. (The per-instance
+                                   // counters cannot be used to detect a reset: mj_resetData clears them and the warning then re-adds one.)
+inline void on_warning(const char* msg) { snprintf(g_lastwarn, sizeof g_lastwarn, "%s", msg); g_nwarn++; if (strstr(msg, "Nan, Inf or huge value")) g_nunstable++; }
 inline void install_mj_handlers() { mju_user_error = on_error; mju_user_warning = on_warning; }
 // GUARD(stmt): run stmt; evaluates to true if mju_error was raised inside it (MuJoCo's contract: handlers do not return)
 #define ND_GUARD(stmt) ([&]() -> bool { jmp_buf jb_; jmp_buf* prev_ = nd::g_jmp; nd::g_jmp = &jb_; bool err_ = false; \
@@ -211,11 +213,17 @@ struct CacheAlloc {
   struct Hdr { size_t sz; Hdr* next; char pad[48]; };
   static inline Hdr* bins[64];
   static int bin(size_t n) { int b = 0; size_t c = 64; while (c < n) { c <<= 1; b++; } return b; }
+  // the model compiler calls mju_malloc from its (real) worker threads: the free lists need a lock
+  static inline volatile int lock_ = 0;
+  static void lock() { while (__sync_lock_test_and_set(&lock_, 1)) { } }   // (__sync: the sim prelude re-binds the __atomic builtins)
+  static void unlock() { __sync_lock_release(&lock_); }
   static void* alloc(size_t n) {
     int b = bin(n ? n : 1);
+    lock();
     Hdr* h = bins[b];
     if (h) bins[b] = h->next;
-    else { h = (Hdr*)aligned_alloc(64, sizeof(Hdr) + ((size_t)64 << b)); if (!h) return nullptr; }
+    unlock();
+    if (!h) { h = (Hdr*)aligned_alloc(64, sizeof(Hdr) + ((size_t)64 << b)); if (!h) return nullptr; }
     ND_ASAN_UNPOISON((char*)h, sizeof(Hdr) + ((size_t)64 << b));   // a recycled block may carry the engine's arena poison
     h->sz = n; h->next = nullptr;
     return (char*)h + sizeof(Hdr);
@@ -225,7 +233,9 @@ struct CacheAlloc {
     ND_ASAN_UNPOISON((char*)p - sizeof(Hdr), sizeof(Hdr));
     Hdr* h = (Hdr*)((char*)p - sizeof(Hdr));
     int b = bin(h->sz ? h->sz : 1);
+    lock();
     h->next = bins[b]; bins[b] = h;
+    unlock();
   }
 };
 inline void use_caching_alloc() { mju_user_malloc = CacheAlloc::alloc; mju_user_free = CacheAlloc::release; }
